@@ -1,7 +1,7 @@
 ------------------------------- MODULE MC_U3 -------------------------------
 (* Universe U3: flat a, b, c, d: chains, diamonds, consumer-before-producer, function task and linear knob. *)
 EXTENDS Integers, Sequences, FiniteSets, TLC, Json
-CONSTANTS Faults, Extras, Transfers, MaxDepth, EmitIdx
+CONSTANTS Faults, Extras, Transfers, MaxDepth, EmitIdx, Episodes
 VARIABLES mem, defs, reg, kprev, frozen, ghost, last, depth
 
 LeafSeq == <<"a", "b", "c", "d">>
